@@ -239,27 +239,32 @@ void BatchSpanProcessor::Export()
   }
 #endif /* ENABLE_THREAD_INSTRUMENTATION_PREVIEW */
 
+  // Records queued when the pending force flush sequence was last loaded. They are exported in
+  // batches of at most max_export_batch_size_, and only once all of them have been exported is
+  // that force flush reported as complete.
+  size_t num_records_remaining     = 0;
+  std::uint64_t notify_force_flush = 0;
+
   do
   {
     std::vector<std::unique_ptr<Recordable>> spans_arr;
-    size_t num_records_to_export;
-    std::uint64_t notify_force_flush =
-        synchronization_data_->force_flush_pending_sequence.load(std::memory_order_acquire);
-    if (notify_force_flush)
+    if (num_records_remaining == 0)
     {
-      num_records_to_export = buffer_.size();
-    }
-    else
-    {
-      num_records_to_export =
-          buffer_.size() >= max_export_batch_size_ ? max_export_batch_size_ : buffer_.size();
+      notify_force_flush =
+          synchronization_data_->force_flush_pending_sequence.load(std::memory_order_acquire);
+      num_records_remaining = buffer_.size();
+
+      if (num_records_remaining == 0)
+      {
+        NotifyCompletion(notify_force_flush, exporter_, synchronization_data_);
+        break;
+      }
     }
 
-    if (num_records_to_export == 0)
-    {
-      NotifyCompletion(notify_force_flush, exporter_, synchronization_data_);
-      break;
-    }
+    size_t num_records_to_export = num_records_remaining >= max_export_batch_size_
+                                       ? max_export_batch_size_
+                                       : num_records_remaining;
+    num_records_remaining -= num_records_to_export;
 
     // Reserve space for the number of records
     spans_arr.reserve(num_records_to_export);
@@ -275,7 +280,10 @@ void BatchSpanProcessor::Export()
                     });
 
     exporter_->Export(nostd::span<std::unique_ptr<Recordable>>(spans_arr.data(), spans_arr.size()));
-    NotifyCompletion(notify_force_flush, exporter_, synchronization_data_);
+    if (num_records_remaining == 0)
+    {
+      NotifyCompletion(notify_force_flush, exporter_, synchronization_data_);
+    }
   } while (true);
 
 #ifdef ENABLE_THREAD_INSTRUMENTATION_PREVIEW
